@@ -5,5 +5,6 @@ CONSTANTS
     ValueLens = {0, 1, 2, 255, 256, 1000}
     ProgLens <- ProgLensThorough
     NthArgs <- NthArgsThorough
-INVARIANTS InRange WalkInvs StopsForGood OnTheWalk Bounded ItemCount Export
+PROPERTY RefinesAbstract
+INVARIANTS AbsSafe InRange WalkInvs StopsForGood OnTheWalk Bounded ItemCount Export
 CHECK_DEADLOCK FALSE
